@@ -1,6 +1,241 @@
+// C10, application / node part: Node.Stop on a node with applications and stray processes
+// returns only after every non-system process has terminated; nothing survives a stopped
+// application (a fresh node per case). Go monitor only.
 package main
 
-import "verifharness/util"
+import (
+	"fmt"
+	"sync/atomic"
+	"time"
 
-func mainNode(out *util.Out, n int, replay string, known []string) {}
-func nodeChild(arg string)                                           {}
+	"ergo.services/ergo/act"
+	"ergo.services/ergo/gen"
+	"verifharness/util"
+)
+
+type NodeCase struct {
+	Kind   string    `json:"kind"` // stop | force | busy (a stray process is inside a callback while Stop runs) | appkid
+	Apps   []AppSpec `json:"apps"`
+	Strays int       `json:"strays"`
+	SKids  int       `json:"skids"` // LinkParent children per stray process
+	Busy   string    `json:"busy"`  // busy: "stray" | "kid"
+	Tags   []string  `json:"tags"`
+}
+
+type NodeObs struct {
+	Spawned    int  `json:"spawned"`
+	Terminated int  `json:"terminated"` // Terminate callbacks that ran (eventually)
+	AtReturn   int  `json:"atreturn"`   // ... that had run when Stop returned
+	Early      bool `json:"early"`      // Stop returned while a process was still inside a callback
+	Returned   bool `json:"returned"`
+	StopRet    int  `json:"stopret"`
+	KidsAlive  int  `json:"kidsalive"` // appkid: children alive when ApplicationStop returned success
+}
+
+var spawnedCnt, termCnt atomic.Int64
+
+// stray: a process outside any application, optionally with LinkParent children
+type stray struct {
+	act.Actor
+	kids int
+	out  chan gen.PID
+}
+
+func (s *stray) Init(args ...any) error {
+	spawnedCnt.Add(1)
+	for k := 0; k < s.kids; k++ {
+		pid, err := s.Spawn(func() gen.ProcessBehavior { return &skid{} }, gen.ProcessOptions{LinkParent: true})
+		if err != nil {
+			return err
+		}
+		if s.out != nil {
+			s.out <- pid
+		}
+	}
+	return nil
+}
+func (s *stray) HandleMessage(from gen.PID, message any) error {
+	if x, ok := message.(busyMsg); ok {
+		<-x.gate
+	}
+	return nil
+}
+func (s *stray) Terminate(reason error) { termCnt.Add(1) }
+
+type skid struct{ act.Actor }
+
+func (s *skid) Init(args ...any) error { spawnedCnt.Add(1); return nil }
+func (s *skid) HandleMessage(from gen.PID, message any) error {
+	if x, ok := message.(busyMsg); ok {
+		<-x.gate
+	}
+	return nil
+}
+func (s *skid) Terminate(reason error) { termCnt.Add(1) }
+
+func (k *kid) Init(args ...any) error { spawnedCnt.Add(1); return nil }
+func (k *kid) Terminate(reason error) { termCnt.Add(1) }
+
+func runNodeCase(c NodeCase) NodeObs {
+	node := startNode()
+	var ob NodeObs
+	spawnedCnt.Store(0)
+	termCnt.Store(0)
+	memberTerms.Store(0)
+	w := newWorld(node, c.Apps)
+	nmembers := 0
+	for i, a := range w.apps {
+		if _, err := node.ApplicationLoad(a); err != nil {
+			panic(err)
+		}
+		if err := node.ApplicationStart(a.name, gen.ApplicationOptions{}); err != nil && err != gen.ErrApplicationRunning {
+			panic(err)
+		}
+		nmembers += c.Apps[i].N
+	}
+	kidpids := make(chan gen.PID, 64)
+	var straypids []gen.PID
+	for i := 0; i < c.Strays; i++ {
+		pid, err := node.Spawn(func() gen.ProcessBehavior { return &stray{kids: c.SKids, out: kidpids} }, gen.ProcessOptions{})
+		if err != nil {
+			panic(err)
+		}
+		straypids = append(straypids, pid)
+	}
+	time.Sleep(500 * time.Microsecond)
+	total := func() int { return int(termCnt.Load() + memberTerms.Load()) }
+	ob.Spawned = int(spawnedCnt.Load()) + nmembers
+	gate := make(chan struct{})
+	switch c.Kind {
+	case "appkid":
+		// a child of a (non-supervisor) member is inside a callback while the application is stopped
+		a := w.apps[0]
+		a.mu.Lock()
+		kp := append([]gen.PID{}, a.kpids...)
+		a.mu.Unlock()
+		if len(kp) > 0 {
+			node.Send(kp[0], busyMsg{gate: gate})
+			time.Sleep(time.Millisecond)
+		}
+		ob.StopRet = retCode(node.ApplicationStop(a.name))
+		ob.KidsAlive = a.liveKids()
+		close(gate)
+		node.Stop()
+		ob.Returned = true
+	case "busy":
+		var target gen.PID
+		if c.Busy == "kid" && len(kidpids) > 0 {
+			target = <-kidpids
+		} else {
+			target = straypids[0]
+		}
+		node.Send(target, busyMsg{gate: gate})
+		time.Sleep(time.Millisecond)
+		done := make(chan struct{})
+		go func() { node.Stop(); close(done) }()
+		select {
+		case <-done:
+			ob.Early = true
+		case <-time.After(120 * time.Millisecond):
+		}
+		ob.AtReturn = total()
+		close(gate)
+		select {
+		case <-done:
+			ob.Returned = true
+		case <-time.After(20 * time.Second):
+		}
+	default:
+		done := make(chan struct{})
+		go func() {
+			if c.Kind == "force" {
+				node.StopForce()
+			} else {
+				node.Stop()
+			}
+			close(done)
+		}()
+		select {
+		case <-done:
+			ob.Returned = true
+		case <-time.After(20 * time.Second):
+		}
+		ob.AtReturn = total()
+	}
+	// no orphans: every process the case spawned runs its Terminate callback
+	for k := 0; k < 10000 && total() < ob.Spawned; k++ {
+		sleepShort()
+	}
+	ob.Terminated = total()
+	return ob
+}
+
+func mainNode(out *util.Out, n int, replay string, known []string) {
+	var cases []NodeCase
+	ap := func(mode, n int, kids ...int) AppSpec {
+		k := make([]int, n)
+		copy(k, kids)
+		return AppSpec{Mode: mode, N: n, Deps: []int{}, Kids: k}
+	}
+	if replay != "" {
+		var c NodeCase
+		loadReplay(replay, &c)
+		cases = []NodeCase{c}
+	} else {
+		cases = []NodeCase{
+			{Kind: "stop", Apps: []AppSpec{ap(1, 2), ap(3, 3, 1)}, Strays: 2, SKids: 1},
+			{Kind: "stop", Apps: []AppSpec{}, Strays: 3, SKids: 2},
+			{Kind: "force", Apps: []AppSpec{ap(2, 2, 0, 2)}, Strays: 2, SKids: 1},
+			{Kind: "busy", Apps: []AppSpec{ap(1, 1)}, Strays: 2, SKids: 1, Busy: "stray"},
+			{Kind: "busy", Apps: []AppSpec{ap(3, 2)}, Strays: 1, SKids: 2, Busy: "kid"},
+		}
+		if hasTag(known, "app-member-children") {
+			cases = append(cases, NodeCase{Kind: "appkid", Apps: []AppSpec{ap(1, 2, 1)}, Tags: []string{"app-member-children"}})
+		}
+		r := util.Rng(31)
+		for i := 0; i < n; i++ {
+			c := NodeCase{Kind: []string{"stop", "stop", "force", "busy", "busy"}[r.Intn(5)], Strays: 1 + r.Intn(3), SKids: r.Intn(3), Busy: []string{"stray", "kid"}[r.Intn(2)]}
+			for a := r.Intn(3); a > 0; a-- {
+				s := ap(1+r.Intn(3), 1+r.Intn(3))
+				if r.Intn(2) == 0 {
+					s.Kids[r.Intn(s.N)] = 1 + r.Intn(2)
+				}
+				c.Apps = append(c.Apps, s)
+			}
+			cases = append(cases, c)
+		}
+	}
+	for _, c := range cases {
+		if c.Tags == nil {
+			c.Tags = []string{}
+		}
+		if c.Apps == nil {
+			c.Apps = []AppSpec{}
+		}
+		o := runNodeCase(c)
+		idx := out.Add("", struct {
+			NodeCase
+			Obs NodeObs `json:"obs"`
+		}{c, o})
+		out.Stats["runs"]++
+		out.Stats["kind:"+c.Kind]++
+		out.Stats["processes"] += o.Spawned
+		fail := func(what string) {
+			out.Monitor = append(out.Monitor, util.MonitorFail{Case: idx, What: fmt.Sprintf("node %s (%d apps, %d strays x %d children): %s", c.Kind, len(c.Apps), c.Strays, c.SKids, what), Tags: c.Tags})
+		}
+		if !o.Returned {
+			fail("Node.Stop did not return")
+		}
+		if o.Terminated != o.Spawned {
+			fail(fmt.Sprintf("%d of %d processes terminated after the node was stopped (orphans)", o.Terminated, o.Spawned))
+		}
+		if c.Kind == "busy" && o.Early {
+			fail("Node.Stop returned while a process was still inside a callback")
+		}
+		if c.Kind == "appkid" && o.StopRet == retOK && o.KidsAlive > 0 {
+			fail(fmt.Sprintf("ApplicationStop returned success while %d child(ren) of a member were still alive", o.KidsAlive))
+		}
+	}
+}
+
+func nodeChild(arg string) {}
